@@ -513,11 +513,14 @@ def build_request(method, target, headers, body_mode, body, comp=None, nl=b"\r\n
     lines = [f"{method} {target} {version}".encode("latin-1")]
     hs = list(headers)
     payload = b""
-    if body_mode == "cl":
-        hs.append(("Content-Length", str(len(body))))
+    # body_mode = "none" | "cl[:<header name spelling>]" | "chunked[:<header name spelling>=<value spelling>]"
+    mode, _, spell = body_mode.partition(":")
+    if mode == "cl":
+        hs.append((spell or "Content-Length", str(len(body))))
         payload = body
-    elif body_mode == "chunked":
-        hs.append(("Transfer-Encoding", "chunked"))
+    elif mode == "chunked":
+        name, _, val = (spell or "Transfer-Encoding=chunked").partition("=")
+        hs.append((name, val))
         payload = frame(body, comp, nl, hexf)
     for k, v in hs:
         lines.append(f"{k}: {v}".encode("latin-1"))
@@ -543,6 +546,7 @@ def expected_headers(hs, host_override):
 def run_request(method, target, headers, body_mode, body, comp, nl, hexf, reads, protocol="HTTP/1.1"):
     """Returns list of violation (sig, text)."""
     raw, hs = build_request(method, target, headers, body_mode, body, comp, nl, hexf)
+    body_mode = body_mode.partition(":")[0]
     seen: dict = {}
 
     def app(environ, start_response):
@@ -890,6 +894,28 @@ def run_unit(unit, R, tier):
                                                      "body": body, "comp": list(comp) if comp else None,
                                                      "nl": b"\r\n", "hexf": "lower", "reads": [2], "sig": sig,
                                                      "text": text})
+        if ti == 0:
+            # spellings of the framing headers (names are case-insensitive, 'chunked' too)
+            spelled = [("cl:content-length", b"abc", None), ("cl:CONTENT-LENGTH", b"abc", None),
+                       ("cl:Content-length", b"", None),
+                       ("chunked:transfer-encoding=chunked", b"abc", (1, 2)),
+                       ("chunked:TRANSFER-ENCODING=CHUNKED", b"abc", (3,)),
+                       ("chunked:Transfer-Encoding=Chunked", b"abcd", (2, 2))]
+            for hs in (HEADER_SETS[0], [("host", "h"), ("content-TYPE", "text/plain"), ("X-foo", "1"), ("x-FOO", "2")]):
+                for body_mode, body, comp in spelled:
+                    for reads in ((), (2,), (1, 5)):
+                        R.ev()
+                        R.count("executions")
+                        R.count("requests")
+                        R.use("B-req:spelling")
+                        R.nontrivial(("reqspell", method, tuple(hs), body_mode, body, reads))
+                        v = run_request(method, "/s", hs, body_mode, body, comp, b"\r\n", "lower", reads)
+                        for sig, text in v:
+                            R.violation("B:request:" + sig, {"kind": "B-req", "method": method, "target": "/s",
+                                                             "headers": [list(h) for h in hs], "body_mode": body_mode,
+                                                             "body": body, "comp": list(comp) if comp else None,
+                                                             "nl": b"\r\n", "hexf": "lower", "reads": list(reads),
+                                                             "sig": sig, "text": text})
         if ti == 0 and method == "POST":
             R.sample({"request": build_request(method, "/a%20b?x=1", HEADER_SETS[1], "chunked", b"abc", (2, 1))[0]})
     elif kind == "B-body":
@@ -972,7 +998,7 @@ def finalize(R, tier):
             "ref:bad-terminator", "ref:trunc-final-line-end", "ref:trunc-last-chunk-line", "ref:bad-final-line-end",
             "mal:size0", "mal:size1", "mal:last", "mal:term", "mal:size16",
             "B-req:none", "B-req:cl", "B-req:chunked", "B-resp:chunked", "B-resp:plain",
-            "B-resp:cl-spelling", "B-resp:extra-headers"}
+            "B-resp:cl-spelling", "B-resp:extra-headers", "B-req:spelling"}
     missing = need - R.used
     if missing:
         raise core.Broken(f"vacuity: never exercised {sorted(missing)}")
